@@ -53,7 +53,7 @@ CoreTokens == Tokens \ ({"-=", "*=", "/=", "%=", "<<=", ">>=", "&=", "|=", "^="}
 
 \* names and literals used by the grammar's templates and contexts but not enumerated as tokens
 AuxTok == {"y", "s", "b", "a", "t", "r", "c", "it", "u", "m", "w", "ca", "nv", "f2", "pr", "mkt", "mkr", "mka", "mki", "n", "p", "q", "g", "e", "z", "h",
-           "2", "5", "64", "99999999999999999999",
+           "2", "5", "63", "64", "9223372036854775807", "99999999999999999999",
            "\"@valid\"", "\"@invalid\"", "\"@illtyped\"", "\"@missing\"", "\"@dir\"", "\"@binary\"",
            "\"@self\""}
 
@@ -413,7 +413,15 @@ FoldSeeds == {
 }
 \* the implementation does not fold ** at all: the negative exponent is a run-time error (C02/C08);
 \* parsing must still be total on it
-UnfoldedSeeds == {<<"2", "**", "(", "0", "-", "1", ")">>, <<"2", "**", "-", "1">>}
+MinInt == <<"(", "0", "-", "9223372036854775807", "-", "1", ")">>
+MinusOne == <<"(", "0", "-", "1", ")">>
+\* ... and constant arithmetic at the edge of the int range is folded with wrapping semantics: it must never
+\* panic (the values are C08's business; here only totality)
+UnfoldedSeeds == {<<"2", "**", "(", "0", "-", "1", ")">>, <<"2", "**", "-", "1">>,
+                  MinInt \o <<"%">> \o MinusOne, MinInt \o <<"/">> \o MinusOne, MinInt \o <<"*">> \o MinusOne,
+                  <<"-">> \o MinInt, MinInt \o <<"-", "1">>,
+                  <<"9223372036854775807", "+", "1">>, <<"9223372036854775807", "*", "2">>,
+                  <<"1", "<<", "63">>, <<"2", "**", "64">>, MinInt \o <<">>", "63">>}
 
 W(name, tpl) == [name |-> name, tpl |-> tpl]
 LiveWrappers == {
